@@ -7,12 +7,13 @@ termination / range; widths 1/2/4; rates 8 and 1000.  Every call runs under a wa
 audioSplice over interval sets x point sets x insertion points x optional replaced region x alignToZeroCrossing.
 """
 import itertools
+import os
 import signal
 
 from mc import domains as D
 from mc.engine import InputPart, Viol
 from mc.models import wavmodel as W
-from mc.props.common import IT, PT, Textgrid, PE, errors, call, ents
+from mc.props.common import IT, PT, Textgrid, PE, errors, call, ents, scratch_dir
 from praatio import audio, praatio_scripts
 
 WATCHDOG_S = 2.0
@@ -103,6 +104,72 @@ def _check_zc(case):
     if st != "exc" or not isinstance(r, errors.ArgumentError):
         viols.append(Viol("small-step-accepted", f"findNearestZeroCrossing(0, 1.5 samples) rate={rate}: {st} {r!r}; ArgumentError required"))
     return cnt, "+".join(sorted(outcomes)), (width, rate, samples) if has else None, viols
+
+
+def _check_zc_long(case):
+    """the size axis (search windows of 65 .. 257 samples on recordings of 67 .. 300 samples) and the file-backed QueryWav: many look-ups
+    through ONE wav object, each result a genuine crossing"""
+    n, shape, k, stepS, backend = case
+    rate, width = 1000, 2
+    if shape == "step":      # one sign change between k-1 and k
+        samples = tuple(5 if i < k else -5 for i in range(n))
+    elif shape == "zero":    # one zero sample at k, everything else positive
+        samples = tuple(0 if i == k else 5 for i in range(n))
+    else:                    # two sign changes
+        samples = tuple(5 if (i < k or i >= k + 40) else -5 for i in range(n))
+    if backend == "Wav":
+        w = mkwav(samples, width, rate)
+    else:
+        fn = os.path.join(scratch_dir(), "c18-long.wav")
+        W.write_riff(fn, list(samples), width, rate)
+        w = audio.QueryWav(fn)
+    step = stepS / rate
+    dur = n / rate
+    viols = []
+    cnt = 0
+    for ti in sorted(set(list(range(0, n + 1, max(1, n // 12))) + [0, 1, k - 1, k, k + 1, n - 1, n])):
+        if not 0 <= ti <= n:
+            continue
+        t = ti / rate
+        cnt += 1
+        st, r, _ = guarded(w.findNearestZeroCrossing, t, step)
+        tag = f"{backend}.findNearestZeroCrossing({t!r}, {step!r}) [target sample {ti}, step {stepS} samples] on {n} samples, shape {shape} at {k}"
+        if st == "hang":
+            viols.append(Viol("non-termination", tag))
+            break
+        if st == "exc":
+            if not isinstance(r, errors.FindZeroCrossingError):
+                viols.append(Viol("zc-raised:" + type(r).__name__, f"{tag}: {r!r}"))
+            continue
+        idx = r * rate
+        if not (0 <= r <= dur) or abs(idx - round(idx)) > 1e-6 or not is_crossing(samples, round(idx)):
+            around = samples[max(0, round(idx) - 1):round(idx) + 2] if 0 <= round(idx) <= n else ()
+            viols.append(Viol("zc-not-a-crossing", f"{tag} returned {r!r} = sample {idx!r} (values around it {around}): not a genuine crossing on a sample position"))
+            break
+    if backend != "Wav":
+        try:
+            w.audiofile.close()
+        except Exception:
+            pass
+    return cnt, "ok", (n, shape, stepS, backend), viols
+
+
+def _zc_long_cases(quick):
+    for backend in ("Wav", "QueryWav"):
+        for n in ((67, 200) if quick else (67, 100, 200, 300)):
+            for shape in ("step", "zero", "two"):
+                for k in sorted(set((1, 2, n // 3, n // 2, n - 66 if n > 66 else 1, n - 2))):
+                    if not 1 <= k < n - 1:
+                        continue
+                    for stepS in ((2, 65, 100.5) if quick else (2, 3, 64, 65, 66, 100.5, 128, 257)):
+                        yield (n, shape, k, stepS, backend)
+        # short recordings through the file-backed reader too (targets near time 0 after the reader has been used)
+        if backend == "QueryWav":
+            for n in (8, 12):
+                for shape in ("step", "zero"):
+                    for k in range(1, n - 1):
+                        for stepS in (2, 3):
+                            yield (n, shape, k, stepS, backend)
 
 
 EDITS = (("del", 0, 2), ("del", 2, 4), ("ins", 0, (1, -2)), ("ins", 3, (0,)), ("rep", 1, 3, (1, 1)), ("rep", 0, 2, (-2, 1)), ("cat", (0, 1)))
@@ -326,6 +393,10 @@ def parts(tier):
                        "one too-small step, all under a %gs watchdog; non-trivial = distinct recordings that contain a crossing"
                        % (alpha, maxlen, WATCHDOG_S),
                   bounds={"alphabet": list(alpha), "max_length": maxlen}, chunk=16),
+        InputPart("zero-crossing-long-windows-and-querywav", lambda: _zc_long_cases(quick), _check_zc_long,
+                  rule="recordings of 67-300 samples (one sign change, one zero sample, two sign changes, at 6 positions) x search steps of 2-257 samples "
+                       "(windows longer than 64 samples) x ~16 targets looked up through ONE Wav and through ONE file-backed QueryWav (and short recordings "
+                       "through QueryWav): every returned time is a genuine crossing on a sample position", bounds={}, chunk=2),
         InputPart("zero-crossing-after-edit",
                   lambda: ((smp, ei) for n in (4, 5) for smp in itertools.product((-2, 0, 1), repeat=n) for ei in range(len(EDITS))),
                   _check_zc_live,
